@@ -451,6 +451,7 @@ func (a *vfCApp) FederatingCallbacks(c context.Context) (FederatingWrappedCallba
 	wr.Create = func(c context.Context, x vocab.ActivityStreamsCreate) error { return a.cb(c, "Create", x) }
 	wr.Follow = func(c context.Context, x vocab.ActivityStreamsFollow) error { return a.cb(c, "Follow", x) }
 	wr.Add = func(c context.Context, x vocab.ActivityStreamsAdd) error { return a.cb(c, "Add", x) }
+	wr.Remove = func(c context.Context, x vocab.ActivityStreamsRemove) error { return a.cb(c, "Remove", x) }
 	wr.Like = func(c context.Context, x vocab.ActivityStreamsLike) error { return a.cb(c, "Like", x) }
 	wr.Announce = func(c context.Context, x vocab.ActivityStreamsAnnounce) error { return a.cb(c, "Announce", x) }
 	return wr, nil, nil
@@ -709,6 +710,60 @@ func vfC08Reactions(typ string) {
 		return vfDoc(typ, "id", id, "actor", actor, "object", obj)
 	}
 	vfC08Pair(mkw, &vfCReq{name: "r1", body: mk(a1, p1, o1)}, &vfCReq{name: "r2", body: mk(a2, p2, o2)})
+}
+
+// a Like and an Announce of owned objects that may be the same object: two different
+// read-modify-writes (likes / shares) of one stored value
+func VfC08_LikeAndAnnounce() {
+	base := vfC08Base()
+	a1, a2 := vfIRI("act"), vfIRI("act")
+	o1, o2 := vfIRI("obj"), vfIRI("obj")
+	p1, p2 := vfIRI("peer"), vfIRI("peer")
+	N1, N2 := vfIRI("ownedNote"), vfIRI("ownedNote")
+	vfDistinct([]string{N1, N2})
+	vfDistinct([]string{a1, a2})
+	vfRoles([]string{a1, a2}, []string{o1, o2, N1, N2}, []string{p1, p2})
+	k := vfChoose("likes.kind", 2)
+	mkw := func(name string) *vfCW {
+		w := base(name)
+		for _, n := range []string{N1, N2} {
+			e := &vfEnt{kind: "Note"}
+			if k == 1 {
+				e.likesK = "OrderedCollection"
+			}
+			w.put(n, e)
+		}
+		return w
+	}
+	vfC08Pair(mkw, &vfCReq{name: "r1", body: vfDoc("Like", "id", a1, "actor", p1, "object", o1)},
+		&vfCReq{name: "r2", body: vfDoc("Announce", "id", a2, "actor", p2, "object", o2)})
+}
+
+// an Add and a Remove on owned collections that may be the same collection
+func VfC08_AddAndRemove() {
+	base := vfC08Base()
+	a1, a2 := vfIRI("act"), vfIRI("act")
+	x1, x2 := vfIRI("obj"), vfIRI("obj")
+	p := vfIRI("peer")
+	T1, T2 := vfIRI("ownedCol"), vfIRI("ownedCol")
+	t1, t2 := vfIRI("target"), vfIRI("target")
+	pre := vfIRI("member")
+	vfDistinct([]string{T1, T2})
+	vfDistinct([]string{a1, a2})
+	vfRoles([]string{a1, a2}, []string{x1, x2, pre}, []string{p}, []string{T1, T2, t1, t2})
+	vfAssume(vfOr(vfStrEq(t1, T1), vfStrEq(t1, T2)), "targets are owned collections")
+	vfAssume(vfOr(vfStrEq(t2, T1), vfStrEq(t2, T2)), "targets are owned collections")
+	kind := []string{"Collection", "OrderedCollection"}[vfChoose("target.kind", 2)]
+	mkw := func(name string) *vfCW {
+		w := base(name)
+		w.put(T1, &vfEnt{kind: kind, items: []string{pre}})
+		w.put(T2, &vfEnt{kind: kind, items: []string{pre}})
+		return w
+	}
+	// the Remove names an entry that is there before (pre) or the one the Add adds (x1): order-dependent
+	// outcomes are accepted by the either-order oracle
+	vfC08Pair(mkw, &vfCReq{name: "r1", body: vfDoc("Add", "id", a1, "actor", p, "object", x1, "target", t1)},
+		&vfCReq{name: "r2", body: vfDoc("Remove", "id", a2, "actor", p, "object", x2, "target", t2)})
 }
 
 func VfC08_Likes()     { vfC08Reactions("Like") }
